@@ -400,14 +400,27 @@ QByteArray QXmppDiscoveryIq::verificationString() const
             for (const auto &key : keys) {
                 const QXmppDataForm::Field field = fieldMap.value(key);
                 S += key + u'<';
-                if (field.value().canConvert<QStringList>()) {
-                    QStringList list = field.value().toStringList();
-                    std::sort(list.begin(), list.end(), octetLessThan);
-                    S += list.join(u'<');
-                } else {
-                    S += field.value().toString();
+                // hash exactly the <value/> elements QXmppDataForm::toXml() writes for this field
+                // (XEP-0115 5.1, 7.c: each value followed by '<'; no value, no separator)
+                QStringList list;
+                switch (field.type()) {
+                case QXmppDataForm::Field::BooleanField:
+                    list << (field.value().toBool() ? u"1"_s : u"0"_s);
+                    break;
+                case QXmppDataForm::Field::ListMultiField:
+                case QXmppDataForm::Field::JidMultiField:
+                case QXmppDataForm::Field::TextMultiField:
+                    list = field.value().toStringList();
+                    break;
+                default:
+                    if (const auto value = field.value().toString(); !value.isEmpty()) {
+                        list << value;
+                    }
                 }
-                S += u'<';
+                std::sort(list.begin(), list.end(), octetLessThan);
+                for (const auto &value : std::as_const(list)) {
+                    S += value + u'<';
+                }
             }
         } else {
             qWarning("QXmppDiscoveryIq form does not contain FORM_TYPE");
